@@ -115,6 +115,8 @@ def execute(case: dict) -> dict:
     kind, chain = case['names'][0], case['names'][1:]
     x64 = bool(jax.config.jax_enable_x64)
     dtype = jnp.float64 if (x64 and int(case['id'], 16) % 2 == 0) else jnp.float32
+    if case.get('force_dtype'):
+        dtype = {'f32': jnp.float32, 'f64': jnp.float64}[case['force_dtype']]
     tol = 1e-9 if dtype == jnp.float64 else 3e-5
     rng = np.random.default_rng(int(case['id'], 16) % (2 ** 32))
     # Stokes components of shape (2,) or (2, 2); angle generators of every shape that broadcasts to it (a (2,) array on
@@ -193,22 +195,32 @@ def execute(case: dict) -> dict:
     out['lifted'] = lifted
     # (c) factories
     fac = None
+
+    def fang(i):
+        # the angles handed to the factories: of the data dtype, or (64-bit mode, float32 data) float64 angles of a
+        # spinning plate, whole turns away - (cos 2a, sin 2a) unchanged, but rounding them to float32 would be off
+        # by 0.06 rad
+        if x64 and dtype == jnp.float32:
+            return jnp.asarray(np.asarray(angles_of[i], dtype=np.float64) + 2 * np.pi * 163841, dtype=jnp.float64)
+        return jnp.asarray(angles_of[i], dtype=dtype)
+
     try:
         if len(chain) == 1 and chain[0] in ('R1', 'R2', 'R3', 'R4'):
-            fac = QURotationOperator.create(leafshape, dtype, kind, angles=jnp.asarray(angles_of[int(chain[0][1])], dtype=dtype))
+            fac = QURotationOperator.create(leafshape, dtype, kind, angles=fang(int(chain[0][1])))
         elif len(chain) == 1 and chain[0] == 'H':
             fac = HWPOperator.create(leafshape, dtype, kind)
         elif len(chain) == 1 and chain[0] == 'P':
             fac = LinearPolarizerOperator.create(leafshape, dtype, kind)
         elif len(chain) == 2 and chain[0] == 'P' and chain[1] in ('R1', 'R2', 'R3', 'R4'):
-            fac = LinearPolarizerOperator.create(leafshape, dtype, kind, angles=jnp.asarray(angles_of[int(chain[1][1])], dtype=dtype))
+            fac = LinearPolarizerOperator.create(leafshape, dtype, kind, angles=fang(int(chain[1][1])))
         elif len(chain) == 3 and chain[1] == 'H' and chain[0] == chain[2] + 'T':
-            fac = HWPOperator.create(leafshape, dtype, kind, angles=jnp.asarray(angles_of[int(chain[2][1])], dtype=dtype))
+            fac = HWPOperator.create(leafshape, dtype, kind, angles=fang(int(chain[2][1])))
         if fac is not None:
             f = {}
             f['before_ok'], f['before_err'] = redcheck._close(terms.dense_of(fac), want, tol)
             f['after_ok'], f['after_err'] = redcheck._close(terms.dense_of(fac.reduce()), want, tol)
             f['structs_ok'] = bool(fac.in_structure() == struct)
+            f['wide_angles'] = bool(x64 and dtype == jnp.float32)
             out['factory'] = f
     except Exception as exc:
         out['factory'] = {'exc': f'{type(exc).__name__}: {str(exc)[:200]}'}
@@ -279,8 +291,23 @@ def run(tier: str, seed: int) -> int:
     picked.sort(key=lambda c: c['names'])
     accepted = 0
     all_traces = []
+
+    def factory_product(c):
+        ch = c['names'][1:]
+        return ((len(ch) == 1 and ch[0][0] in 'RHP' and not ch[0].endswith('T'))
+                or (len(ch) == 2 and ch[0] == 'P' and ch[1][0] == 'R' and not ch[1].endswith('T'))
+                or (len(ch) == 3 and ch[1] == 'H' and ch[0] == ch[2] + 'T'))
+
+    # every chain that is the product a factory builds is always replayed, in 64-bit mode with both data dtypes
+    facs = [c for c in cases if factory_product(c)]
+    have = {c['id'] for c in picked}
+    picked += [c for c in facs if c['id'] not in have]
+    picked.sort(key=lambda c: c['names'])
     for x64 in (False, True):
         sub = picked if (tier != 'quick' or not x64) else picked[::3]
+        if x64:
+            ids = {c['id'] for c in sub}
+            sub = [c for c in sub if not factory_product(c)] + [dict(c, force_dtype=d, id=fx.case_id({'t': c['term'], 'd': d})) for c in facs for d in ('f32', 'f64')]
         traces = fx.replay('c15', 'execute', sub, x64=x64, procs=fx.NPROC, chunksize=max(4, len(sub) // 48))
         verdicts, tv = redcheck.validate(traces)
         accepted += judge(sub, traces, verdicts, verd, 'x64' if x64 else 'x32')
